@@ -13,6 +13,6 @@ fn main() {
             only: &["wrong-data", "data-without-response", "lifecycle-order", "store-over-live-state", "app-panic", "txrx-panic"],
         },
         300,
-        4000,
+        1500,
     );
 }
